@@ -184,4 +184,5 @@ def replay(case):
                          inp['parseComments'], inp.get('validate', False), inp['fetcher'], stage,
                          type(exc).__name__, str(exc)[:200], site),
             'fields': {'symptom': 'raises', 'stage': stage, 'exc': type(exc).__name__, 'site': site,
-                       'entry': inp['entry'], 'text': inp['text']}}
+                       'entry': inp['entry'], 'text': inp['text'],
+                       'fetcher_cyclic': inp['fetcher'] == 'selfimport'}}
